@@ -743,6 +743,15 @@ func runSampler(e *simcore.Env, tp *simcore.Tape, gated bool) {
 	synctest.Test(e.T, func(*testing.T) {
 		knobDesc, knobRestore := simknobs.Draw(tp, "trace", "sidx")
 		defer knobRestore()
+		// bytes staged per sampler decision batch (the engine's own test seam; 0 = as in production): small budgets make
+		// a merge decide its traces in several batches
+		stageBudget := []uint64{0, 0, 1, 2000, 100000}[tp.Side().Choose(5)]
+		oldBudget := trace.VerifSetStageBudgetOverride(stageBudget)
+		defer trace.VerifSetStageBudgetOverride(oldBudget)
+		if stageBudget > 0 {
+			e.Probe("knob.sampler_stage_budget_shrunk")
+		}
+		e.Event("sampler stage budget override=%d", stageBudget)
 		simknobs.Record(e, knobDesc)
 		var gatesOn atomic.Bool
 		armed := map[string]bool{}
